@@ -327,6 +327,20 @@ func c53Build() *c53World {
 		w.addUpdate(c53UpdSpec{name: name, period: sp.period, signer: g(sp.period), sigPeriod: sp.period, next: next, proven: next,
 			count: sp.count, finalized: sp.fin, forged: sp.count < c53Thr})
 	}
+	// period-pair product: attested header in period P, signature slot in period Q in {P-1, P+1, P+2} (and Q == P signed
+	// by the next period's committee) x signing committee {genuine of P, genuine of Q, attacker's of Q} x
+	// {threshold-1, all signers, all signers + finalized header} x next committee {genuine, attacker}. A signature slot
+	// outside the header's period makes the update improper whoever signed it: none may ever be stored, at the tip or
+	// inside the chain.
+	for _, name := range c53CrossOps() {
+		x := c53ParseCross(name)
+		signer := map[string]string{"P": g(x.p), "Q": g(x.q), "A": f(x.q), "N": g(x.p + 1)}[x.signer]
+		next := g(x.p + 1)
+		if x.other {
+			next = f(x.p + 1)
+		}
+		w.addUpdate(c53UpdSpec{name: name, period: x.p, signer: signer, sigPeriod: x.q, next: next, proven: next, count: x.count, finalized: x.fin, forged: true})
+	}
 	w.addUpdate(c53UpdSpec{name: "gfin1", period: 1, signer: "G1", sigPeriod: 1, next: "G2", proven: "G2", count: 400, finalized: true})
 	w.addUpdate(c53UpdSpec{name: "gfinlow1", period: 1, signer: "G1", sigPeriod: 1, next: "G2", proven: "G2", count: 320, finalized: true}) // below supermajority: not "finalized"
 	w.addUpdate(c53UpdSpec{name: "glate3", period: 3, signer: "G3", sigPeriod: 3, next: "G4", proven: "G4", count: 400, future: true})
@@ -455,6 +469,66 @@ func c53ScoreOps(thorough bool) (names []string) {
 		names = append(names, c53ScoreName(sp))
 	}
 	return names
+}
+
+type c53CrossSpec struct {
+	p, q   int
+	signer string // P: genuine committee of the header period, Q: of the signature period, A: attacker's of Q, N: genuine of P+1 (with Q == P)
+	count  int
+	fin    bool
+	other  bool
+}
+
+func c53CrossSpecs() (out []c53CrossSpec) {
+	for p := 0; p < c53MaxP; p++ {
+		for _, q := range []int{p - 1, p, p + 1, p + 2} {
+			if q < 0 || q > c53MaxP {
+				continue
+			}
+			signers := []string{"P", "Q", "A"}
+			if q == p {
+				signers = []string{"N"} // same-period pairs with the own / previous / attacker committee exist already
+			}
+			for _, sg := range signers {
+				for _, v := range []struct {
+					count int
+					fin   bool
+				}{{c53Thr - 1, false}, {params.SyncCommitteeSize, false}, {params.SyncCommitteeSize, true}} {
+					for _, other := range []bool{false, true} {
+						out = append(out, c53CrossSpec{p, q, sg, v.count, v.fin, other})
+					}
+				}
+			}
+		}
+	}
+	return out
+}
+
+func c53CrossName(x c53CrossSpec) string {
+	k, n := "N", "G"
+	if x.fin {
+		k = "F"
+	}
+	if x.other {
+		n = "X"
+	}
+	return fmt.Sprintf("x%d/%d:%s:%s%d%s", x.p, x.q, x.signer, k, x.count, n)
+}
+
+func c53CrossOps() (names []string) {
+	for _, x := range c53CrossSpecs() {
+		names = append(names, c53CrossName(x))
+	}
+	return names
+}
+
+func c53ParseCross(name string) c53CrossSpec {
+	for _, x := range c53CrossSpecs() {
+		if c53CrossName(x) == name {
+			return x
+		}
+	}
+	panic("c53: not a period-pair update: " + name)
 }
 
 // ---------------------------------------------------------------------------
@@ -748,6 +822,9 @@ func c53Alphabet(w *c53World, lazyVerify bool, full bool, scores bool) []c53Op {
 	add(c53Op{name: "fix(1,zero)", kind: "fix", p: 1, id: ""})
 	insert("glate3", "G4")
 	if scores {
+		for _, name := range c53CrossOps() {
+			insert(name, w.upd[name].Next)
+		}
 		have := map[string]bool{}
 		for _, o := range ops {
 			have[o.name] = true
@@ -913,11 +990,17 @@ func (s *c53Sys) exec(op c53Op, final bool) error {
 	s.last = op.kind + ":" + c53ErrClass(err)
 	if forged {
 		s.last = "forged-" + s.last
-		if err == nil {
+		// A forged delivery must never change anything. It normally fails; the one documented exception is an
+		// update that neither beats the stored update of its period nor contradicts the known next root: InsertUpdate
+		// answers nil ("a better or equal update already exists; no changes") before looking at the signature.
+		if s.m.String() != before {
+			return fmt.Errorf("harness: model accepts forged delivery %s", op.name)
+		}
+		if err == nil && !expectOK {
 			return fmt.Errorf("%s: forged / improperly signed delivery was accepted (no error)", op.name)
 		}
-		if expectOK || s.m.String() != before {
-			return fmt.Errorf("harness: model accepts forged delivery %s", op.name)
+		if err == nil && op.kind != "ins" {
+			return fmt.Errorf("%s: forged delivery was accepted (no error)", op.name)
 		}
 	}
 	if (err == nil) != expectOK {
@@ -1255,6 +1338,7 @@ func TestVerif_C53(t *testing.T) {
 			"CheckpointInit (genuine, alternative-chain, 2 forged), addFixedCommitteeRoot(p) p=0..4 (+alternative root, zero root), addCommittee(p) genuine/alternative/attacker, " +
 			"Validate+InsertUpdate of genuine updates (3 scores, finalized, with/without/with the wrong next committee, future), of a properly signed alternative chain (reorg candidates: equal/better/finalized score) " +
 			"the score product at period 1 {non-finalized, finalized with valid finality branch} x signers {1, thr-1, thr, 341, 342, 512} x next committee {genuine, attacker F below the threshold / alternative A2 from the threshold on}, finalized 1- and thr-1-signer attacker updates at every period, " +
+			"the period-pair product (header period P, signature-slot period in {P-1, P, P+1, P+2}) x signing committee {genuine of P, of the signature period, of P+1, attacker} x {thr-1, 512, 512+finalized} x next {genuine, attacker}, " +
 			"and of 7 forged families per period (attacker-signed, threshold-1 signers, wrong merkle branch, inflated bitmask, signature slot in another period, wrong period's committee, low-signer genuine), " +
 			"deleteFixedCommitteeRootsFrom, Reset [, reload], in any order incl. descending periods; after every op (eager run) or as explicit ops verify(p) (lazy run) a matrix of ~20 signed headers per period " +
 			"(genuine/attacker/alternative/neighbour-period committee x {thr-1,thr,512} signers, inflated, tampered, period-boundary, future) is verified through VerifySignedHeader and HeadTracker.validate")
